@@ -385,6 +385,7 @@ def extra_obligations(mods, tier, seed):
     del LITVAR_JOBS[:]
     out += spacing_and_literal_obligations(P)
     out += litvar_obligations()
+    out += branch_declared_obligations(P)
     _STATE["stats"] = stats
     _STATE["samples"] = samples
     _STATE["wall"] = round(time.time() - t_all, 2)
@@ -579,6 +580,46 @@ def spacing_and_literal_obligations(P):
                 rest = [a for a in args if a.split("=")[0] not in {q.name for q in pos_params[:pos_params.index(p)]}]
                 LITVAR_JOBS.append((f"{label}/{p.name}/written-as-positional", plain, base_src + f"dev.{meth}(" + ", ".join(pos_args + [str(base_val)] + rest) + ")\n"))
     return out
+
+
+BRANCH_DECLARED_CALLS = {
+    "RGBLed": ["dev.blink(10, 20, 30)", "dev.blink(10, blue=30, green=20)", "dev.blink(10, 20, 30, delay_ms=50, times=4)", "dev.set_color(1, blue=3, green=2)",
+               "dev.fade(1, 2, 3, steps=4, duration_ms=40)", "dev.on(10, blue=30, green=20)", "dev.off()"],
+    "Servo": ["dev.write(90)", "dev.write_us(1500)", "dev.write(angle=45)"],
+    "DCMotor": ["dev.set_speed(0.5)", "dev.run_for(speed=0.25, duration_ms=50)", "dev.ramp(0.5, 40)", "dev.stop()"],
+    "Buzzer": ["dev.play_tone(440, 20)", "dev.beep(frequency=600, on_ms=10, off_ms=5, times=2)", "dev.stop()"],
+    "Led": ["dev.blink(20, 2)", "dev.set_brightness(77)", "dev.toggle()"],
+    "LCD": ["dev.write(1, 0, 'hi', align='right')", "dev.line(1, 'x')", "dev.message(bottom='b')"],
+}
+
+
+def branch_declared_obligations(P):
+    """a call on a device binds the same way wherever the constructor line stood: declared at module level vs declared in both arms of an
+    if / else, and vs re-declared in a taken branch - the IR node the parser builds for the call is the same"""
+    t0 = time.time()
+    bad, n = [], 0
+    for cls, calls in sorted(BRANCH_DECLARED_CALLS.items()):
+        d = DEVICES[cls]
+        for c in calls:
+            top = PRELUDE + "cfg = 1\n" + d + "\n" + c + "\n"
+            variants = {"both-arms": PRELUDE + "cfg = 1\nif cfg == 1:\n    " + d + "\nelse:\n    " + d + "\n" + c + "\n",
+                        "elif-arms": PRELUDE + "cfg = 1\nif cfg == 0:\n    " + d + "\nelif cfg == 1:\n    " + d + "\nelse:\n    " + d + "\n" + c + "\n"}
+            try:
+                ref = repr(P.parse(top).setup_body[-1])
+            except Exception as ex:
+                bad.append({"call": c, "device": cls, "problem": f"rejected with a module-level device: {type(ex).__name__}: {ex}"})
+                continue
+            for vn, src in variants.items():
+                n += 1
+                try:
+                    got = repr(P.parse(src).setup_body[-1])
+                except Exception as ex:
+                    got = f"rejected: {type(ex).__name__}: {ex}"
+                if got != ref:
+                    bad.append({"call": c, "device": cls, "declared": vn, "module_level_ir": ref[:200], "branch_declared_ir": got[:200], "script": src[len(PRELUDE):]})
+    return [{"name": "C08/device-declared-in-branch-arms/call-binds-as-at-module-level", "status": "discharged" if not bad else "sat", "backend": "enum",
+             "where": f"{n} (device call, declaration placement) pairs: the IR node of the call is the same with the constructor at module level and in every arm of an if/else",
+             "time": round(time.time() - t0, 2), "replay": {"failing": bad[:4]}, "replay_confirmed": bool(bad)}]
 
 
 LITVAR_JOBS = []
